@@ -101,6 +101,20 @@ def r3_backtracking_shape(ctx):
             first_ok = True
         if any(l.endswith("Iterator::position") or l.endswith("Iterator>::position") for l in labs) and "const:1" in labs and "arg:2" in labs:
             next_ok = True
+    # exactly the successor: the index with which the offered slice is read on the backtracking path is position(previous choice) + 1
+    from engine.lin import Lin
+    lin = Lin(b)
+    lin.opaque = {"Iterator::position": "pos", "Iterator>::position": "pos"}
+    idx_forms = []
+    for s in b.sites():
+        st = b.at(s)
+        for pl in b.places_read(st):
+            if pl["l"] == 2:
+                for p in pl.get("p", []):
+                    if p.startswith("I:_"):
+                        idx_forms.append(lin.op({"k": "copy", "pl": {"l": int(p[3:])}}))
+    exact = bool(idx_forms) and all(f == {"pos": 1, "const": 1} for f in idx_forms)
+    next_ok = next_ok and exact
     ctx.ob("C09.R3", "fresh-level-takes-first", first_ok, "a fresh level records the first offered task", loc=b.loc())
     ctx.ob("C09.R3", "backtrack-takes-successor", next_ok,
            "a backtracking step records the offered task at position(previous choice) + 1" if next_ok else
